@@ -66,6 +66,7 @@ pub async fn run_op2(ctx: &Ctx, op: AOp, info: &Rc<TaskInfo>, handle: Handle) {
             let cap = 1 + (op.c >> 8) % 16;
             let claimed = Rc::new(Cell::new(false));
             ctx.probe("channel-session");
+            ctx.log.borrow_mut().session_tags.insert(tag);
             if op.a % 2 == 0 {
                 // We hold the sender.
                 let r = blocked(info, "ChannelBuilder::claim_sender", true, handle.create_low_level_channel().claim_sender()).await;
